@@ -215,12 +215,22 @@ def cases(tier, rng, dist, focus=None):
         n = rng.randint(3, 6)
         data = [rng.randint(-4, 4) for _ in range(2 * n)]
         steps = [rng.choice(["two_sample", "one_sample", "k_sample", "corr", "permute", "pwg", "s2s", "biv", "rows", "two_sample", "shift", "shift"]) for _ in range(rng.randint(2, 4))]
-        yield {"f": "seq", "steps": steps, "data": data, "n": n, "reps": rng.randint(1, 3), "gen": rng.choice(["tape", "tape", "sha", "rs"]),
+        reps_ = rng.randint(1, 3)
+        if rng.random() < 0.4:
+            # a FAILING call somewhere before the end: the statistic raises inside the repetition loop (at its (k+1)-th evaluation,
+            # 1 <= k <= reps); the calls after it on the same generator must continue the stream exactly as if the generator had
+            # simply been used that far
+            j = rng.randrange(len(steps) - 1)
+            if steps[j] in ("two_sample", "one_sample", "k_sample", "s2s", "biv", "shift"):
+                steps[j] += "!%d" % rng.randint(1, reps_)
+        yield {"f": "seq", "steps": steps, "data": data, "n": n, "reps": reps_, "gen": rng.choice(["tape", "tape", "sha", "rs"]),
                "seed": rng.randint(0, 10**6), "aseed": rng.randint(0, 10**9), "keep": rng.random() < 0.7}
     # every ordered pair of different kinds of draw (sign bits, shuffles, Fisher-Yates permutations) on one real generator
     for gen in ("sha", "rs"):
         for steps in (["one_sample", "one_sample"], ["one_sample", "two_sample"], ["one_sample", "shift"], ["one_sample", "permute"], ["two_sample", "one_sample"],
-                      ["k_sample", "one_sample"], ["permute", "one_sample", "pwg"], ["corr", "two_sample", "one_sample"], ["s2s", "one_sample", "biv"], ["rows", "shift", "k_sample"]):
+                      ["k_sample", "one_sample"], ["permute", "one_sample", "pwg"], ["corr", "two_sample", "one_sample"], ["s2s", "one_sample", "biv"], ["rows", "shift", "k_sample"],
+                      ["one_sample!1", "one_sample"], ["two_sample!2", "two_sample"], ["one_sample!2", "permute", "two_sample"], ["k_sample!1", "one_sample", "shift"],
+                      ["shift!1", "one_sample", "two_sample"], ["s2s!1", "pwg", "one_sample"], ["biv!2", "k_sample"]):
             n = rng.randint(4, 6)
             yield {"f": "seq", "steps": steps, "data": [rng.randint(-4, 4) for _ in range(2 * n)], "n": n, "reps": rng.randint(2, 3), "gen": gen,
                    "seed": rng.randint(0, 10**6), "aseed": rng.randint(0, 10**9), "keep": True}
@@ -396,10 +406,24 @@ def oracle_manyreps(c, o):
     return None
 
 
+class StatFailure(RuntimeError):
+    pass
+
+
 def seq_call(step, c, gen, x, y, g, m):
-    """one call of a sequence; returns a JSON-able summary (results + what the recording statistic saw)"""
+    """one call of a sequence; returns a JSON-able summary (results + what the recording statistic saw).
+    A step written "name!k" is a FAILING call: its statistic raises StatFailure at its (k+1)-th evaluation (k >= 1: inside the
+    repetition loop); the exception must reach the caller and the calls that follow must be unaffected by it"""
     from permute import stratified as _st
-    rec = []
+    step, _, fail = step.partition("!")
+    fail = int(fail) if fail else None
+
+    class _Rec(list):
+        def append(self, v):
+            if fail is not None and len(self) == fail:
+                raise StatFailure("the statistic failed on purpose")
+            list.append(self, v)
+    rec = _Rec()
     kw = dict(reps=c["reps"], seed=gen)
     if step == "two_sample":
         def st(u, v):
@@ -499,12 +523,22 @@ def run_seq(c):
 
 def oracle_seq(c, o):
     for k, r in enumerate(o["seq"]):
-        if r[0] != "ok":
+        if "!" in c["steps"][k]:
+            if not (r[0] == "exc" and r[1] == "Other:StatFailure"):
+                return {"why": f"call {k} ({c['steps'][k]}) of the sequence {c['steps']}: the exception raised by the statistic inside the repetition loop did not reach the caller: {str(r)[:200]}", "cls": "sequence:raises"}
+            for tag in ("alone", "via_proxy"):
+                if tag in o and not (o[tag][k][0] == "exc" and o[tag][k][1] == "Other:StatFailure"):
+                    return {"why": f"call {k} ({c['steps'][k]}) of the sequence {c['steps']} ({tag}): expected the statistic's exception, got {str(o[tag][k])[:200]}", "cls": "sequence:raises"}
+        elif r[0] != "ok":
             return {"why": f"call {k} ({c['steps'][k]}) of a sequence sharing one generator raised {r}", "cls": "sequence:raises"}
     if not o.get("unmodified", True):
         return {"why": f"a sequence of calls {c['steps']} modified the caller's arrays", "cls": "sequence:input-modified"}
     if c["gen"] == "tape":
         for k, (r, a, w) in enumerate(zip(o["seq"], o["alone"], o["windows"])):
+            if "!" in c["steps"][k]:
+                if a[-1] != 0:
+                    return {"why": f"failing call {k} ({c['steps'][k]}) alone leaves {a[-1]} of the {len(w)} answers it consumed inside the sequence {c['steps']}", "cls": "sequence:irreproducible"}
+                continue
             if a[0] != "ok":
                 return {"why": f"call {k} ({c['steps'][k]}) alone on the {len(w)} answers it consumed in the sequence {c['steps']} raised {a[:3]}: in the sequence it used draws it does not use alone", "cls": "sequence:irreproducible"}
             if a[-1] != 0:
@@ -515,13 +549,17 @@ def oracle_seq(c, o):
                 return {"why": f"call {k} ({c['steps'][k]}) of the sequence consumed no answer from the shared generator", "cls": "sequence:irreproducible"}
         return None
     for k, (r, a) in enumerate(zip(o["seq"], o["alone"])):
+        if "!" in c["steps"][k]:
+            continue
         if a[0] != "ok" or not same_result(r[1], a[1]):
             return {"why": f"sequence {c['steps']} on one {c['gen']} generator: call {k} returned {str(r[1])[:160]}, a second generator in the same starting state gives {str(a[1:])[:160]}", "cls": "sequence:irreproducible"}
     for k, (r, a) in enumerate(zip(o["seq"], o.get("via_proxy", []))):
+        if "!" in c["steps"][k]:
+            continue
         if a[0] != "ok" or not same_result(r[1], a[1]):
             return {"why": f"sequence {c['steps']} on one plain SHA256({c['seed']}) instance: call {k} returned {str(r[1])[:160]}; the same calls through a subclass that forwards every request to a SHA256 in the same state give {str(a[1:])[:160]}: the instance is not used through its primitives alone (or carries hidden state from the previous call)", "cls": "sequence:irreproducible"}
     ff = o["first_fresh"]
-    if ff[0] != "ok" or not same_result(ff[1], o["seq"][0][1]):
+    if "!" not in c["steps"][0] and (ff[0] != "ok" or not same_result(ff[1], o["seq"][0][1])):
         return {"why": f"first call ({c['steps'][0]}) with a fresh {c['gen']} generator differs from the same call at the head of a sequence", "cls": "sequence:irreproducible"}
     if "repeat40" in o:
         a, b = o["repeat40"]
